@@ -192,6 +192,13 @@ def run(ctx):
         order = [i_hash, i_store, i_clone, i_red, i_sign, i_back]
         ctx.check(all(i >= 0 for i in order) and order == sorted(order), "C03.hash_and_sign", "C03.hash_and_sign:order", w.where(f),
                   bad_msg=f"pipeline steps [hash, store, copy, redact, sign, copy-back] occur at {order} in {names}")
+    # C03 relies on redaction being the specification's and idempotent (the signed / reference-hashed form is the redacted event, and
+    # verification redacts again): the redaction rules of C04 are part of this check
+    from . import C04 as _C04
+    _C04.run(ctx)
+    # what is signed / hashed is the canonical JSON form: the canonical-JSON rules of C01 are part of this check
+    from . import C01 as _C01
+    _C01.run(ctx)
     ctx.assumptions += ["Ed25519 / SHA-256 strength and the behaviour of mutated events follow from C04/C05 tables plus cryptography; not decided here"]
     ctx.samples += [{"scenario": "m.room.member invite with third_party_invite, v1", "signers": ["event_id"]},
                     {"scenario": "m.room.member join with authorising user, v8+", "signers": ["sender", "authoriser"]}]
